@@ -219,7 +219,7 @@ def run_group(hs, jobs, tag):
     tmo = max(h.get("timeout", 300) for h in hs)
     # RLIMIT_AS counts virtual address space, which CBMC reserves far beyond its resident set
     # (a 38 s / 2 GB-RSS harness died under a 16 GB cap): the cap is a backstop only.
-    mem = max(40, max(h.get("mem_gb", 12) for h in hs))
+    mem = max(56 if any(h.get("huge") for h in hs) else 40, max(h.get("mem_gb", 12) for h in hs))
     logpath = os.path.join(LOGS, "group_%s.log" % tag)
     t0 = time.time()
     # overall cap: every harness could hit its timeout in each of ceil(n/jobs) waves, plus compile
@@ -244,8 +244,16 @@ def run_group(hs, jobs, tag):
     return res
 
 
+def weight(h):
+    """light: run 12 at a time; heavy (resident set up to ~15 GB): 2 at a time; huge (the 43 KB
+    InflateState harnesses, 20-45 GB resident): one at a time - the machine has 62 GB and no swap."""
+    if h.get("huge"):
+        return 2
+    return 1 if h.get("heavy") else 0
+
+
 def group_key(h):
-    return (h.get("mode", "merge"), tuple(h.get("cbmc_args", [])), bool(h.get("heavy")))
+    return (h.get("mode", "merge"), tuple(h.get("cbmc_args", [])), weight(h))
 
 
 def run_all(sel, jobs):
@@ -255,7 +263,7 @@ def run_all(sel, jobs):
     results = []
     for gi, (k, hs) in enumerate(sorted(groups.items(), key=lambda kv: str(kv[0]))):
         hs.sort(key=lambda h: -h.get("timeout", 300))
-        j = min(jobs, len(hs), 3 if k[2] else jobs)
+        j = min(jobs, len(hs), {0: jobs, 1: 2, 2: 1}[k[2]])
         r = run_group(hs, j, "%s_%d" % (k[0], gi))
         if r is None:
             return None
